@@ -3,8 +3,8 @@ Implementation-level predicates of the `route` slice (C17, C20). They read the o
 the *implementation's* output lines only (never the model) and restate what the property text
 observes:
 
-C17  every message / query / sudo, from a user or as a sub-message of a native or a lifted contract,
-     produces exactly the records the configured modules must produce (right module and tag, right
+C17  every message / query / sudo, from a user or as a sub-message returned by a native or a lifted
+     contract from any of its entry points (instantiate, execute, migrate, sudo, reply), produces exactly the records the configured modules must produce (right module and tag, right
      entry point, sender and payload as sent, nothing in any other module); a failing module gives
      `err`; after `err`/`panic` the storage dump is what it was; after `ok` exactly the counters of the
      recording modules that were reached have moved.
@@ -14,7 +14,8 @@ C20  after `build`, block / storage / api / wasm keeper / every module slot are 
 
 Conventions of the harness that are used: recording modules are tagged `slot#tag`; a recording module
 bumps the storage counter `cnt/<slot>` on execute and sudo; the user is `u1`, the emitter contracts are
-`cn` (native) and `cl` (lifted); the default block is cosmwasm-std's `mock_env().block`.
+`cn` (native) and `cl` (lifted), a freshly instantiated emitter is `cx`, the emitters' admin is `u2`;
+the default block is cosmwasm-std's `mock_env().block`.
 What a *default* module answers to a probe is deliberately not assumed (either `ok` or `err` is
 accepted), only that nobody else is called.
 """
@@ -29,6 +30,7 @@ QUERY_KINDS = {"bank": "bank", "wasm": "wasm", "custom": "custom", "staking": "s
                "grpc": "stargate"}
 QUERY_ENTRY = {"stargate": "query-stargate", "grpc": "query-grpc"}
 SUDO_KINDS = {"bank": "bank", "staking": "staking", "wasm": "wasm"}
+ENTRIES = ("instantiate", "execute", "migrate", "sudo", "reply")
 
 
 def is_hex(t):
@@ -132,10 +134,17 @@ def _check(ops, impl, want_builder):
             continue
         if builds:
             builds[-1][1].append((op, out))
-        if t[0] in ("send-top", "send-sub"):
-            origin = "top" if t[0] == "send-top" else (t[1] if len(t) > 1 else "")
-            items = parse_items(t[1:] if origin == "top" else t[2:])
-            if items is None or origin not in ("top", "native", "lifted"):
+        if t[0] in ("send-top", "send-sub", "send-sub-from"):
+            # send-sub X … = send-sub-from execute X …
+            entry = "execute"
+            if t[0] == "send-top":
+                origin, rest = "top", t[1:]
+            elif t[0] == "send-sub":
+                origin, rest = (t[1] if len(t) > 1 else ""), t[2:]
+            else:
+                entry, origin, rest = (t[1] if len(t) > 1 else ""), (t[2] if len(t) > 2 else ""), t[3:]
+            items = parse_items(rest)
+            if items is None or origin not in ("top", "native", "lifted") or entry not in ENTRIES:
                 return where + "malformed send accepted"
             if pending is not None:
                 stale = True
@@ -144,7 +153,12 @@ def _check(ops, impl, want_builder):
                 if out == "ok":
                     dump = None
                 continue
+            # the sender a module must see is the *emitting contract*, whatever entry point emitted the message and
+            # whoever triggered that entry point (the user u1, the admin u2 for migrate, nobody for sudo); for
+            # `instantiate` the emitter is the freshly created instance `cx`
             sender = {"top": "u1", "native": "cn", "lifted": "cl"}[origin]
+            if origin != "top" and entry == "instantiate":
+                sender = "cx"
             calls = []
             for k, h in items:
                 slot = EXEC_KINDS[k]
@@ -250,7 +264,7 @@ def check_builds(builds):
             if op in first and first[op] != want:
                 return "after build %s: `%s` gives `%s`, supplied/default component says `%s`" % (sorted(cfg.items()), op, first[op], want)
         if obs and obs[0][0] in ("block", "storage-dump", "init-count", "api-prefix", "wasm-gen"):
-            k = next((i for i, (op, _) in enumerate(obs) if op.split()[0] in ("send-top", "send-sub", "sudo")), len(obs))
+            k = next((i for i, (op, _) in enumerate(obs) if op.split()[0] in ("send-top", "send-sub", "send-sub-from", "sudo")), len(obs))
             for op, out in obs[:k]:
                 if op == "storage-dump":
                     want = {"696e6974": "01"}
@@ -312,7 +326,7 @@ def nt_route(ops, impl):
     """non-trivial: some message reached a recording module or the contract from a sub-message, or a
     wrapper/builder was assembled from at least two steps"""
     for op, out in zip(ops, impl):
-        if op == "records" and (":cn:" in out or ":cl:" in out):
+        if op == "records" and (":cn:" in out or ":cl:" in out or ":cx:" in out):
             return True
         if (op.startswith("build ") or op.startswith("wrapper ")) and len(op.split()) >= 3 and out != "bad-op":
             return True
